@@ -4,6 +4,7 @@ package staticsources
 import (
 	"context"
 	"fmt"
+	"regexp"
 	"strconv"
 	"strings"
 	"time"
@@ -32,14 +33,26 @@ func emptyTimer() *time.Timer {
 	return t
 }
 
-func resolveSource(s string, matches []string, query string) string {
-	for i := len(matches) - 1; i >= 1; i-- {
-		s = strings.ReplaceAll(s, "$G"+strconv.FormatInt(int64(i), 10), matches[i])
+var rePlaceholder = regexp.MustCompile(`\$G[0-9]+|\$MTX_QUERY`)
+
+func resolveGroup(p string, matches []string) string {
+	// longest index that exists: "$G12" with 5 groups is still $G1 followed by "2", as before
+	for end := len(p); end > 2 && p[2] != '0'; end-- {
+		i, err := strconv.Atoi(p[2:end])
+		if err == nil && i < len(matches) {
+			return matches[i] + p[end:]
+		}
 	}
+	return p
+}
 
-	s = strings.ReplaceAll(s, "$MTX_QUERY", query)
-
-	return s
+func resolveSource(s string, matches []string, query string) string {
+	return rePlaceholder.ReplaceAllStringFunc(s, func(p string) string {
+		if p == "$MTX_QUERY" {
+			return query
+		}
+		return resolveGroup(p, matches)
+	})
 }
 
 type staticSource interface {
